@@ -3,6 +3,7 @@ responsive one."""
 from simlib import boot  # noqa: F401
 from simlib import runner
 from simlib.core import HarnessError
+from wormhole._dilation.roles import LEADER
 from checks import common_c as cc
 
 PROP = "C16"
@@ -60,12 +61,89 @@ def configs(tier):
                                     "responsive", "silent", "stop", "loss",
                                     "reconnect_silent", "one_way",
                                     "bulk_reconnect", "pause_reconnect",
-                                    "many_reconnects")]
+                                    "many_reconnects",
+                                    "loss_at_selection")]
+
+
+def _loss_at_selection(seed, tape, opts, interval):
+    """The link dies in the very turn in which it is being selected: after a
+    side has seen the peer's key confirmation (the Connector has queued its
+    accept) and before the Manager is told about the connection. The loss is
+    reported all the same - the Leader must not sit on a dead connection with
+    its monitor idle: a new generation is started and ends up connected."""
+    w = cc.setup(tape, dict(opts, staged=False), relay_ok=False, ping=interval)
+    sim = w.sim
+    sim.weights["advance"] = 0
+    losses = [1 + tape.choose(2, "sel_losses")]
+    which = tape.pick(("leader", "follower", "either"), "sel_side")
+    done = []
+
+    def hook():
+        if losses[0] <= 0:
+            return
+        for s in w.sides:
+            if s.role is None or s.m is None:
+                continue
+            if which == "leader" and s.role is not LEADER:
+                continue
+            if which == "follower" and s.role is LEADER:
+                continue
+            c = getattr(s.m, "_connector", None)
+            if c is None or s.m._connection is not None:
+                continue
+            for p in list(getattr(c, "_contenders", ())):
+                e = w.l2_end.get(p)
+                if e is not None and e.link.up and e.link not in done:
+                    done.append(e.link)
+                    losses[0] -= 1
+                    sim.ev("loss_at_selection", s.name)
+                    sim.note("fault.cut_in_selection_turn")
+                    sim.net.cut(e.link, tape.pick((("c", "s"), ("c", "s"),
+                                                   ("c",), ("s",)), "seltell"))
+                    return
+    sim.after_step = hook
+    for s in w.sides:
+        s.start(w.key)
+    t0 = sim.now()
+
+    def settled():
+        return losses[0] <= 0 and w.both_connected()
+    sim.run(40000, until=settled, max_time=12 * interval)
+    for l in done:
+        sim.net.reveal(l)
+    sim.run(40000, until=w.both_connected, max_time=8 * interval)
+    viol = []
+    if done and not w.both_connected():
+        L, F = w.leader, w.follower
+        viol.append({"key": "C16.no_replacement_after_loss", "clause": "a "
+                     "connection that is lost (or on which the other side "
+                     "stops answering) is dropped and a new generation is "
+                     "started - across loss at any time",
+                     "detail": "interval %.1f: %d link(s) lost in the turn in "
+                     "which they were being selected (%s side); %.1f s later "
+                     "the sides are not connected: Leader connection %s "
+                     "(transport alive: %s, ping timer pending: %s), Follower "
+                     "connection %s" %
+                     (interval, len(done), which, sim.now() - t0,
+                      L.m._connection is not None,
+                      L.m._connection is not None and
+                      w.l2_end[L.m._connection].alive, _timer_pending(L.m),
+                      F.m._connection is not None)})
+    w.finish()
+    return {"violation": viol[0] if viol else None, "nontrivial": bool(done),
+            "digest": sim.hexdigest(), "trace": sim.trace,
+            "stats": {"steps": sim.steps, "sim_s": sim.now() - 1000.0,
+                      "notes": sim.notes},
+            "sample": {"seed": seed, "regime": "loss_at_selection",
+                       "interval": interval, "lost_links": len(done),
+                       "side": which}}
 
 
 def run_one(seed, tape, opts):
     regime = opts.get("regime", "silent")
     interval = tape.pick(INTERVALS, "interval")
+    if regime == "loss_at_selection":
+        return _loss_at_selection(seed, tape, opts, interval)
     w = cc.setup(tape, dict(opts, staged=False), relay_ok=False, ping=interval)
     sim = w.sim
     sim.weights["advance"] = 0      # time moves only when nothing else can
